@@ -13,7 +13,7 @@ Section ObjInd.
   Hypothesis HAtom : forall k t, P (Atom k t). Hypothesis HStr : forall s, P (Str s). Hypothesis HSym : forall s, P (Sym s).
   Hypothesis HL : forall xs, Forall P xs -> P (L xs).
   Hypothesis HDot : forall xs tl, Forall P xs -> P tl -> P (Dot xs tl).
-  Hypothesis HVec : forall xs et adj, Forall P xs -> P et -> P (Vec xs et adj).
+  Hypothesis HVec : forall xs et adj fp, Forall P xs -> P et -> P (Vec xs et adj fp).
   Hypothesis HArr : forall dims xs et adj, Forall P xs -> P et -> P (Arr dims xs et adj).
   Hypothesis HHash : forall kvs, Forall (fun kv => P (fst kv) /\ P (snd kv)) kvs -> P (Hash kvs).
   Hypothesis HLam : forall ll doc body, Forall P ll -> Forall P body -> P (Lam ll doc body).
@@ -27,7 +27,7 @@ Section ObjInd.
     | Nil => HNil | T => HT | Fix z => HFix z | Big z => HBig z | Atom k t => HAtom k t | Str s => HStr s | Sym s => HSym s
     | L xs => HL xs (all xs)
     | Dot xs tl => HDot xs tl (all xs) (obj_ind2 tl)
-    | Vec xs et adj => HVec xs et adj (all xs) (obj_ind2 et)
+    | Vec xs et adj fp => HVec xs et adj fp (all xs) (obj_ind2 et)
     | Arr dims xs et adj => HArr dims xs et adj (all xs) (obj_ind2 et)
     | Hash kvs => HHash kvs ((fix allp (l : list (obj * obj)) : Forall (fun kv => P (fst kv) /\ P (snd kv)) l :=
                                 match l with
@@ -76,14 +76,67 @@ Proof.
   intros A B f l r H. induction H; [reflexivity|]. cbn [map_res]. rewrite H, IHForall2. reflexivity.
 Qed.
 
-(* the two local fixpoints of load_form and eval are map_res *)
-Lemma load_form_list : forall xs,
+
+Lemma env_ok_inst : forall e x, env_ok e -> env_ok (("inst", x) :: e).
+Proof.
+  intros e x He s Hs. cbn [lookup]. destruct ("inst" =? s) eqn:E; [|apply He; exact Hs].
+  apply String.eqb_eq in E. subst. vm_compute in Hs. discriminate.
+Qed.
+
+(* the local fixpoints of lform and eval are map_res *)
+Lemma lform_list : forall xs,
   (fix go (l : list obj) : res (list obj) :=
      match l with
      | [] => Ok []
-     | a :: r => bind (load_form a) (fun b => bind (go r) (fun bs => Ok (b :: bs)))
-     end) xs = map_res load_form xs.
+     | a :: r => bind (lform true a) (fun b => bind (go r) (fun bs => Ok (b :: bs)))
+     end) xs = map_res elem_form xs.
 Proof. induction xs as [|a r IH]; [reflexivity|]. cbn [map_res]. rewrite <- IH. reflexivity. Qed.
+
+Lemma load_form_L : forall el xs, lform el (L xs) = bind (map_res elem_form xs) (fun fs => Ok (L (Sym "list" :: fs))).
+Proof. intros el xs. cbn [lform]. rewrite lform_list. reflexivity. Qed.
+
+Lemma load_form_Dot : forall el xs tl,
+  lform el (Dot xs tl) =
+  bind (map_res elem_form xs) (fun fs => bind (elem_form tl) (fun ft =>
+    match rev fs with
+    | [] => Err EBadForm
+    | lastf :: revhead =>
+        let c := L [Sym "cons"; lastf; ft] in
+        match revhead with
+        | [] => Ok c
+        | _ => Ok (L [Sym "append"; L (Sym "list" :: rev revhead); c])
+        end
+    end)).
+Proof. intros el xs tl. cbn [lform]. rewrite lform_list. reflexivity. Qed.
+
+Lemma lform_entries : forall kvs,
+  (fix go (l : list (obj * obj)) : res (list obj) :=
+     match l with
+     | [] => Ok []
+     | (k, w) :: r => bind (lform true k) (fun kf => bind (lform true w) (fun wf => bind (go r) (fun es =>
+                        Ok (setf_gethash kf wf :: es))))
+     end) kvs = map_res entry_form kvs.
+Proof.
+  induction kvs as [|[k w] r IH]; [reflexivity|]. cbn [map_res]. rewrite <- IH. unfold entry_form, elem_form. cbn [fst snd].
+  destruct (lform true k); [|reflexivity]. destruct (lform true w); reflexivity.
+Qed.
+
+Lemma load_form_Hash : forall el kvs, lform el (Hash kvs) = bind (map_res entry_form kvs) (fun es => Ok (table_let es)).
+Proof. intros el kvs. cbn [lform]. rewrite lform_entries. reflexivity. Qed.
+
+Lemma lform_slots : forall slots,
+  (fix go (l : list (string * obj)) : res (list obj) :=
+     match l with
+     | [] => Ok []
+     | (k, w) :: r => bind (lform true w) (fun wf => bind (go r) (fun es => Ok (setf_slot k wf :: es)))
+     end) slots = map_res slot_form slots.
+Proof.
+  induction slots as [|[k w] r IH]; [reflexivity|]. cbn [map_res]. rewrite <- IH. unfold slot_form, elem_form. cbn [fst snd].
+  destruct (lform true w); reflexivity.
+Qed.
+
+Lemma load_form_Inst : forall el f slots, lform el (Inst f slots) = bind (map_res slot_form slots) (fun es => Ok (inst_let f es)).
+Proof. intros el f slots. cbn [lform]. rewrite lform_slots. reflexivity. Qed.
 
 Lemma eval_list : forall e xs,
   (fix evs (l : list obj) : res (list obj) :=
@@ -93,12 +146,15 @@ Lemma eval_list : forall e xs,
      end) xs = map_res (eval e) xs.
 Proof. induction xs as [|a r IH]; [reflexivity|]. cbn [map_res]. rewrite <- IH. reflexivity. Qed.
 
-(* what the theorem says about one value *)
+
+(* what the theorem says about one value as an element of another (for everything but a symbol the element form is the
+   load form): the form evaluates to the value in every environment that knows the flavors of the instances inside *)
 Definition reloads (v : obj) : Prop :=
-  exists f, load_form v = Ok f /\ forall e, env_ok e -> eval e f = Ok v.
+  exists f, elem_form v = Ok f /\ forall e, env_ok e -> insts_in e v = true -> eval e f = Ok v.
 
 Lemma reloads_all : forall xs, Forall (fun v => loadable_in v = true -> reloads v) xs -> forallb loadable_in xs = true ->
-  exists fs, map_res load_form xs = Ok fs /\ forall e, env_ok e -> map_res (eval e) fs = Ok xs.
+  exists fs, map_res elem_form xs = Ok fs /\
+             forall e, env_ok e -> forallb (insts_in e) xs = true -> map_res (eval e) fs = Ok xs.
 Proof.
   induction xs as [|a r IH]; intros HF Hl.
   - exists []. split; [reflexivity|]. intros; reflexivity.
@@ -107,7 +163,8 @@ Proof.
     destruct (Pa Ha) as (fa & Efa & Eva). destruct (IH Pr Hr) as (fs & Efs & Evs).
     exists (fa :: fs). split.
     + cbn [map_res]. rewrite Efa, Efs. reflexivity.
-    + intros e He. cbn [map_res]. rewrite (Eva e He), (Evs e He). reflexivity.
+    + intros e He Hi. cbn [forallb] in Hi. apply andb_true_iff in Hi. destruct Hi as [Hia Hir].
+      cbn [map_res]. rewrite (Eva e He Hia), (Evs e He Hir). reflexivity.
 Qed.
 
 Lemma map_res_app : forall {A B} (f : A -> res B) l1 l2 r1 r2,
@@ -128,6 +185,63 @@ Proof.
     cbn [bind] in H. injection H as <-. cbn [List.length]. f_equal. apply IH. reflexivity.
 Qed.
 
+
+(* ---- adding the variable a load form binds (table, inst) hides no flavor ---- *)
+Lemma insts_in_ext : forall v e e',
+  (forall f, (f =? "inst") = false -> (f =? "table") = false -> lookup e' f = lookup e f) ->
+  insts_in e v = true -> insts_in e' v = true.
+Proof.
+  induction v using obj_ind2; intros e e' Hlk Hi; try reflexivity.
+  - (* L *)
+    cbn [insts_in] in Hi |- *.
+    induction xs as [|a r IHr]; [reflexivity|]. inversion H as [|? ? Pa Pr]; subst.
+    cbn [forallb] in Hi |- *. apply andb_true_iff in Hi. destruct Hi as [Ia Ir].
+    rewrite (Pa e e' Hlk Ia). cbn [andb]. apply IHr; assumption.
+  - (* Dot *)
+    cbn [insts_in] in Hi |- *. apply andb_true_iff in Hi. destruct Hi as [Hi Hit].
+    rewrite (IHv e e' Hlk Hit), andb_true_r.
+    induction xs as [|a r IHr]; [reflexivity|]. inversion H as [|? ? Pa Pr]; subst.
+    cbn [forallb] in Hi |- *. apply andb_true_iff in Hi. destruct Hi as [Ia Ir].
+    rewrite (Pa e e' Hlk Ia). cbn [andb]. apply IHr; assumption.
+  - (* Hash *)
+    cbn [insts_in] in Hi |- *.
+    induction kvs as [|[k w] r IHr]; [reflexivity|]. inversion H as [|? ? [_ Pw] Pr]; subst. cbn [snd] in Pw.
+    cbn [forallb fst snd] in Hi |- *. apply andb_true_iff in Hi. destruct Hi as [Ia Ir].
+    rewrite (Pw e e' Hlk Ia). cbn [andb]. apply IHr; assumption.
+  - (* Inst *)
+    cbn [insts_in] in Hi |- *. apply andb_true_iff in Hi. destruct Hi as [Hi Hg]. apply andb_true_iff in Hi. destruct Hi as [Hi Hn].
+    apply andb_true_iff in Hi. destruct Hi as [Hf Hl]. apply andb_true_iff in Hf. destruct Hf as [Hf1 Hf2].
+    rewrite Hf1, Hf2. cbn [andb]. apply negb_true_iff in Hf1. apply negb_true_iff in Hf2.
+    rewrite (Hlk f Hf1 Hf2). rewrite Hl, Hn. cbn [andb].
+    clear Hl Hn. induction slots as [|[k w] r IHr]; [reflexivity|]. inversion H as [|? ? Pw Pr]; subst. cbn [snd] in Pw.
+    apply andb_true_iff in Hg. destruct Hg as [Ia Ir].
+    rewrite (Pw e e' Hlk Ia). cbn [andb]. apply IHr; assumption.
+Qed.
+
+Lemma insts_in_table : forall v e x, insts_in e v = true -> insts_in (("table", x) :: e) v = true.
+Proof.
+  intros v e x Hi. apply (insts_in_ext v e); [|exact Hi].
+  intros f _ Hf. cbn [lookup]. rewrite String.eqb_sym, Hf. reflexivity.
+Qed.
+Lemma insts_in_inst : forall v e x, insts_in e v = true -> insts_in (("inst", x) :: e) v = true.
+Proof.
+  intros v e x Hi. apply (insts_in_ext v e); [|exact Hi].
+  intros f Hf _. cbn [lookup]. rewrite String.eqb_sym, Hf. reflexivity.
+Qed.
+
+Lemma no_inst_insts_in : forall v e, no_inst v = true -> insts_in e v = true.
+Proof.
+  induction v using obj_ind2; intros e Hn; try reflexivity; cbn [no_inst insts_in] in *.
+  - induction xs as [|a r IHr]; [reflexivity|]. inversion H; subst. cbn [forallb] in *. apply andb_true_iff in Hn. destruct Hn as [Ha Hr].
+    rewrite (H2 e Ha). cbn [andb]. apply IHr; assumption.
+  - apply andb_true_iff in Hn. destruct Hn as [Hn Ht]. rewrite (IHv e Ht), andb_true_r.
+    induction xs as [|a r IHr]; [reflexivity|]. inversion H; subst. cbn [forallb] in *. apply andb_true_iff in Hn. destruct Hn as [Ha Hr].
+    rewrite (H2 e Ha). cbn [andb]. apply IHr; assumption.
+  - induction kvs as [|[k w] r IHr]; [reflexivity|]. inversion H as [|? ? [_ Pw] Pr]; subst. cbn [forallb fst snd] in *.
+    apply andb_true_iff in Hn. destruct Hn as [Ha Hr]. rewrite (Pw e Ha). cbn [andb]. apply IHr; assumption.
+  - discriminate.
+Qed.
+
 (* ---- atoms, symbols ---- *)
 Lemma eval_sym : forall e s, env_ok e ->
   (is_keyword s && plain_sym s || existsb (String.eqb s) self_bound) = true -> eval e (Sym s) = Ok (Sym s).
@@ -136,19 +250,18 @@ Proof.
   cbn [andb orb] in H. rewrite (He s H). reflexivity.
 Qed.
 
-(* ---- quoted arguments and keywords inside the make-array form ---- *)
 Lemma eval_quote : forall e x, eval e (quote x) = Ok x.
 Proof. intros. reflexivity. Qed.
 
-Lemma length_pos_of_nat : forall (xs : list obj), xs <> [] -> (0 <? Z.of_nat (List.length xs))%Z = true.
-Proof. intros xs H. destruct xs; [contradiction|]. cbn [List.length]. apply Z.ltb_lt. lia. Qed.
-
-Lemma eval_vec_form : forall e xs, xs <> [] ->
-  eval e (make_array_form (L [Fix (Z.of_nat (List.length xs))]) T (mkL xs) true) = Ok (Vec xs T true).
+(* ---- vectors: empty or not, adjustable or not, with or without a fill pointer ---- *)
+Lemma eval_vec_form : forall e xs adj fp,
+  eval e (make_array_form (L [Fix (Z.of_nat (List.length xs))]) T (mkL xs) adj (fp_items fp)) = Ok (Vec xs T adj fp).
 Proof.
-  intros e xs Hne. unfold make_array_form, et_form. cbn [app].
-  assert (Hm : mkL xs = L xs) by (destruct xs; [contradiction|reflexivity]). rewrite Hm.
-  cbn. rewrite (length_pos_of_nat xs Hne). cbn. reflexivity.
+  intros e xs adj fp. unfold make_array_form, et_form, fp_items.
+  assert (Hpos : (0 <=? Z.of_nat (List.length xs))%Z = true) by (apply Z.leb_le; lia).
+  assert (Hfp : forall n, (Z.of_nat n <? 0)%Z = false) by (intro n; apply Z.ltb_ge; lia).
+  destruct xs as [|x xs']; destruct adj; destruct fp as [n|]; cbn [app mkL];
+    cbn; rewrite ?Hpos, ?Hfp, ?Nat2Z.id; cbn; rewrite ?Hfp, ?Nat2Z.id; reflexivity.
 Qed.
 
 (* ---- arrays: nest and flatten_dims are inverse ---- *)
@@ -179,64 +292,76 @@ Proof.
   specialize (IH Hds). unfold prod_dims in IH. nia.
 Qed.
 
+
+Definition as_list (o : obj) : list obj := match o with L c => c | _ => [] end.
+Lemma as_list_mkL : forall l, as_list (mkL l) = l.
+Proof. destruct l; reflexivity. Qed.
+Lemma mkL_cases : forall l, mkL l = Nil \/ exists c, mkL l = L c.
+Proof. destruct l; [left; reflexivity|right; eexists; reflexivity]. Qed.
+
 Lemma flatten_dims_step : forall d d' ds c,
   flatten_dims (d :: d' :: ds) c =
   if negb (Nat.eqb d (List.length c)) then Err EMalformed
-  else bind (map_res (fun sub => match sub with L ys => flatten_dims (d' :: ds) ys | _ => Err EType end) c)
+  else bind (map_res (fun sub => match sub with
+                                 | L ys => flatten_dims (d' :: ds) ys
+                                 | Nil => flatten_dims (d' :: ds) []
+                                 | _ => Err EType
+                                 end) c)
             (fun ls => Ok (List.concat ls)).
 Proof. reflexivity. Qed.
 
-Lemma nest_flatten : forall dims xs, dims <> [] -> forallb (fun d => (0 <? d)%nat) dims = true ->
-  List.length xs = prod_dims dims ->
-  exists c, nest dims xs = L c /\ flatten_dims dims c = Ok xs.
+Lemma nest_step : forall d d' ds xs,
+  nest (d :: d' :: ds) xs = mkL (map (nest (d' :: ds)) (chunk d (prod_dims (d' :: ds)) xs)).
+Proof. reflexivity. Qed.
+
+(* Array.AsList and Array.setDim are inverse, zero dimensions included (a row without elements is nil) *)
+Lemma nest_flatten : forall dims xs, dims <> [] -> List.length xs = prod_dims dims ->
+  flatten_dims dims (as_list (nest dims xs)) = Ok xs /\ (nest dims xs = Nil \/ exists c, nest dims xs = L c).
 Proof.
-  induction dims as [|d ds IH]; intros xs Hne Hpos Hlen; [contradiction|].
-  cbn [forallb] in Hpos. apply andb_true_iff in Hpos. destruct Hpos as [Hd Hds]. apply Nat.ltb_lt in Hd.
+  induction dims as [|d ds IH]; intros xs Hne Hlen; [contradiction|].
   destruct ds as [|d' ds'].
   - (* last dimension *)
     cbn [prod_dims fold_right] in Hlen. rewrite Nat.mul_1_r in Hlen.
-    cbn [nest]. rewrite <- Hlen. rewrite firstn_all.
-    destruct xs as [|x xs']; [cbn in Hlen; lia|].
-    exists (x :: xs'). split; [reflexivity|].
-    cbn [flatten_dims]. rewrite Hlen. rewrite Nat.eqb_refl. reflexivity.
+    cbn [nest]. rewrite <- Hlen. rewrite firstn_all. split; [|apply mkL_cases].
+    rewrite as_list_mkL. cbn [flatten_dims]. rewrite Nat.eqb_refl. reflexivity.
   - set (k := prod_dims (d' :: ds')).
-    assert (Hk : 0 < k) by (apply prod_dims_pos; exact Hds).
     assert (Hlen' : List.length xs = d * k) by (rewrite Hlen; reflexivity).
     assert (Hne' : d' :: ds' <> []) by discriminate.
-    cbn [nest]. fold k.
+    rewrite nest_step. fold k. split; [|apply mkL_cases]. rewrite as_list_mkL.
     pose proof (chunk_each d k xs Hlen') as Hch.
-    assert (Hsub : Forall2 (fun sub ch => match sub with L ys => flatten_dims (d' :: ds') ys | _ => Err EType end = Ok ch)
+    assert (Hsub : Forall2 (fun sub ch => match sub with
+                                          | L ys => flatten_dims (d' :: ds') ys
+                                          | Nil => flatten_dims (d' :: ds') []
+                                          | _ => Err EType
+                                          end = Ok ch)
                            (map (nest (d' :: ds')) (chunk d k xs)) (chunk d k xs)).
     { induction Hch as [|ch chs Hc Hcs IHc]; cbn [map]; constructor; [|exact IHc].
-      destruct (IH ch Hne' Hds Hc) as (c & Ec & Ef). rewrite Ec. exact Ef. }
-    destruct (chunk d k xs) as [|ch0 chs] eqn:Ech.
-    { pose proof (chunk_length d k xs) as Hl. rewrite Ech in Hl. cbn in Hl. lia. }
-    exists (map (nest (d' :: ds')) (ch0 :: chs)). split; [reflexivity|].
-    rewrite flatten_dims_step. rewrite map_length. rewrite <- Ech. rewrite chunk_length. rewrite Nat.eqb_refl. cbn [negb].
-    rewrite Ech. rewrite (map_res_ok _ _ _ Hsub). cbn [bind]. rewrite <- Ech. rewrite chunk_concat by exact Hlen'. reflexivity.
+      destruct (IH ch Hne' Hc) as (Ef & [En|(c & Ec)]).
+      - rewrite En in Ef |- *. exact Ef.
+      - rewrite Ec in Ef |- *. exact Ef. }
+    rewrite flatten_dims_step. rewrite map_length, chunk_length, Nat.eqb_refl. cbn [negb].
+    rewrite (map_res_ok _ _ _ Hsub). cbn [bind]. rewrite chunk_concat by exact Hlen'. reflexivity.
 Qed.
 
-Lemma dims_of_fix : forall ds, forallb (fun d => (0 <? d)%nat) ds = true ->
-  dims_of (map (fun d => Fix (Z.of_nat d)) ds) = Ok ds.
+Lemma dims_of_fix : forall ds, dims_of (map (fun d => Fix (Z.of_nat d)) ds) = Ok ds.
 Proof.
-  induction ds as [|d ds IH]; intro H; [reflexivity|].
-  cbn [forallb] in H. apply andb_true_iff in H. destruct H as [Hd Hds]. apply Nat.ltb_lt in Hd.
-  cbn [map dims_of]. assert ((0 <? Z.of_nat d)%Z = true) as -> by (apply Z.ltb_lt; lia).
-  rewrite (IH Hds). cbn [bind]. rewrite Nat2Z.id. reflexivity.
+  induction ds as [|d ds IH]; [reflexivity|].
+  cbn [map dims_of]. assert ((0 <=? Z.of_nat d)%Z = true) as -> by (apply Z.leb_le; lia).
+  rewrite IH. cbn [bind]. rewrite Nat2Z.id. reflexivity.
 Qed.
 
-Lemma eval_arr_form : forall e dims xs, (2 <= List.length dims)%nat -> forallb (fun d => (0 <? d)%nat) dims = true ->
-  List.length xs = prod_dims dims ->
-  eval e (make_array_form (mkL (map (fun d => Fix (Z.of_nat d)) dims)) T (nest dims xs) true) = Ok (Arr dims xs T true).
+Lemma eval_arr_form : forall e dims xs adj, (2 <= List.length dims)%nat -> List.length xs = prod_dims dims ->
+  eval e (make_array_form (mkL (map (fun d => Fix (Z.of_nat d)) dims)) T (nest dims xs) adj []) = Ok (Arr dims xs T adj).
 Proof.
-  intros e dims xs Hr Hpos Hlen.
+  intros e dims xs adj Hr Hlen.
   assert (Hne : dims <> []) by (destruct dims; [cbn in Hr; lia|discriminate]).
-  destruct (nest_flatten dims xs Hne Hpos Hlen) as (c & Ec & Ef). rewrite Ec.
+  destruct (nest_flatten dims xs Hne Hlen) as (Ef & Hc).
   assert (Hm : mkL (map (fun d => Fix (Z.of_nat d)) dims) = L (map (fun d => Fix (Z.of_nat d)) dims))
     by (destruct dims; [contradiction|reflexivity]).
   rewrite Hm. unfold make_array_form, et_form. cbn [app].
-  cbn. rewrite (dims_of_fix dims Hpos). cbn. rewrite Ef. cbn.
-  destruct dims as [|d1 [|d2 ds]]; [contradiction|cbn in Hr; lia|reflexivity].
+  destruct Hc as [En|(c & Ec)]; [rewrite En in Ef |- *|rewrite Ec in Ef |- *]; cbn [as_list] in Ef;
+    destruct adj; cbn; rewrite (dims_of_fix dims); cbn; rewrite Ef; cbn;
+    destruct dims as [|d1 [|d2 ds]]; try contradiction; try (cbn in Hr; lia); reflexivity.
 Qed.
 
 (* ---- hash tables ---- *)
@@ -254,18 +379,14 @@ Proof.
   cbn [hash_set]. rewrite H1. cbn [app]. f_equal. apply IH. exact H2.
 Qed.
 
-Lemma key_form_eval : forall e k w, hash_key_ok k = true ->
-  exists kf, hash_entry_form (k, w) = [L [Sym "setf"; L [Sym "gethash"; kf; Sym "table"]; w]] /\ eval e kf = Ok k.
+
+Lemma key_form_eval : forall k, hash_key_ok k = true -> exists kf, elem_form k = Ok kf /\ forall e, eval e kf = Ok k.
 Proof.
-  intros e k w H. destruct k; try discriminate.
-  - (* Fix *) eexists. split; reflexivity.
-  - (* Atom *) cbn [hash_key_ok] in H. apply andb_true_iff in H. destruct H as [Hk _].
-    cbn [hash_entry_form fst snd].
-    assert ((kind =? "character") = false) as ->.
-    { apply orb_true_iff in Hk. destruct Hk as [Hk|Hk]; apply String.eqb_eq in Hk; subst; reflexivity. }
-    eexists. split; reflexivity.
-  - (* Str *) eexists. split; reflexivity.
-  - (* Sym *) eexists. split; [reflexivity|]. reflexivity.
+  intros k H. destruct k; try discriminate; try (eexists; split; [reflexivity|]; intro e; reflexivity).
+  (* Sym *)
+  unfold elem_form. cbn [lform andb]. destruct (is_keyword s) eqn:K; cbn [negb]; eexists; (split; [reflexivity|]); intro e.
+  - cbn [eval]. rewrite K. reflexivity.
+  - reflexivity.
 Qed.
 
 (* the body of the let form built by HashTable.LoadForm, as eval runs it *)
@@ -283,32 +404,30 @@ Definition run_table (e : env) : list (obj * obj) -> list obj -> res obj :=
     | _ => Err EUnmodelled
     end.
 
-Lemma eval_table_let : forall e body,
-  eval e (L (Sym "let" :: L [L [Sym "table"; L [Sym "make-hash-table"]]] :: body)) = run_table e [] body.
+Lemma eval_table_let : forall e es, eval e (table_let es) = run_table e [] (es ++ [Sym "table"]).
 Proof. intros. reflexivity. Qed.
 
-Lemma run_table_entries : forall e kvs tbl, env_ok e ->
-  forallb (fun kv => hash_key_ok (fst kv) && self_evaluating (snd kv)) kvs = true ->
+Definition entry_evals (e : env) (kv : obj * obj) (ef : obj) : Prop :=
+  exists kf wf, ef = setf_gethash kf wf /\ (forall tb, eval (("table", Hash tb) :: e) kf = Ok (fst kv))
+                /\ (forall tb, eval (("table", Hash tb) :: e) wf = Ok (snd kv)).
+
+Lemma run_table_entries : forall e kvs efs tbl,
+  Forall2 (entry_evals e) kvs efs ->
   keys_distinct (map fst kvs) = true ->
   (forall k, In k (map fst kvs) -> existsb (fun kv => obj_eqb (fst kv) k) tbl = false) ->
-  run_table e tbl (flat_map hash_entry_form kvs ++ [Sym "table"]) = Ok (Hash (tbl ++ kvs)).
+  run_table e tbl (efs ++ [Sym "table"]) = Ok (Hash (tbl ++ kvs)).
 Proof.
-  intros e kvs. induction kvs as [|[k w] r IH]; intros tbl He Hok Hd Hfresh.
-  - cbn [flat_map app run_table]. rewrite app_nil_r. reflexivity.
-  - cbn [forallb fst snd] in Hok. apply andb_true_iff in Hok. destruct Hok as [Hkw Hr].
-    apply andb_true_iff in Hkw. destruct Hkw as [Hk Hw].
-    cbn [map fst keys_distinct] in Hd. apply andb_true_iff in Hd. destruct Hd as [Hnk Hdr]. apply negb_true_iff in Hnk.
-    destruct (key_form_eval (("table", Hash tbl) :: e) k w Hk) as (kf & Ekf & Evk).
-    cbn [flat_map]. rewrite Ekf. cbn [app].
-    cbn [run_table]. cbn [String.eqb Ascii.eqb Bool.eqb andb].
-    rewrite (self_evaluating_eval _ w (env_ok_table e tbl He) Hw). cbn [bind]. rewrite Evk. cbn [bind].
+  intros e kvs efs tbl HF. revert tbl. induction HF as [|[k w] ef r efs' (kf & wf & Eef & Evk & Evw) HF IH]; intros tbl Hd Hfresh.
+  - cbn [app run_table]. rewrite app_nil_r. reflexivity.
+  - cbn [map fst keys_distinct] in Hd. apply andb_true_iff in Hd. destruct Hd as [Hnk Hdr]. apply negb_true_iff in Hnk.
+    subst ef. cbn [app]. unfold setf_gethash. cbn [run_table]. cbn [String.eqb Ascii.eqb Bool.eqb andb].
+    cbn [fst snd] in Evk, Evw. rewrite Evw. cbn [bind]. rewrite Evk. cbn [bind].
     rewrite hash_set_fresh by (apply Hfresh; left; reflexivity).
     fold (run_table e).
-    rewrite (IH (tbl ++ [(k, w)]) He Hr Hdr).
+    rewrite (IH (tbl ++ [(k, w)]) Hdr).
     + rewrite <- app_assoc. reflexivity.
     + intros k' Hin. rewrite existsb_app. rewrite (Hfresh k' (or_intror Hin)). cbn [existsb fst orb].
       rewrite orb_false_r.
-      (* k was not among the later keys *)
       clear -Hnk Hin. induction (map fst r) as [|a l IHl]; [contradiction|].
       cbn [existsb] in Hnk. apply orb_false_iff in Hnk. destruct Hnk as [H1 H2].
       destruct Hin as [<-|Hin]; [exact H1|apply IHl; assumption].
@@ -352,9 +471,84 @@ Proof.
   intros ll doc body. eexists. split; [reflexivity|]. destruct ll; reflexivity.
 Qed.
 
+
+(* ---- instances: the body of the let form built by InstanceLoadForm (and by the snapshot's ppInstance), as eval runs it ---- *)
+Definition run_inst (e : env) (fl : string) : list (string * obj) -> list obj -> res obj :=
+  fix go (slots : list (string * obj)) (l : list obj) : res obj :=
+    match l with
+    | [] => Ok Nil
+    | [Sym r] => if (r =? "inst")%string then Ok (Inst fl slots) else Err EUnmodelled
+    | L [Sym sf; L [Sym sv; Sym iv'; L [Sym q; Sym k]]; vf] :: rest =>
+        if (sf =? "setf")%string && (sv =? "slot-value")%string && (iv' =? "inst")%string && (q =? "quote")%string then
+          bind (eval (("inst", Inst fl slots) :: e) vf) (fun v =>
+            match slot_set slots k v with
+            | Some s' => go s' rest
+            | None => Err EType
+            end)
+        else Err EUnmodelled
+    | _ => Err EUnmodelled
+    end.
+
+Lemma eval_inst_let : forall e f n ivars i g s d setfs,
+  lookup e f = Some (Flv n ivars i g s d) ->
+  eval e (inst_let f setfs) = run_inst e f ivars (setfs ++ [Sym "inst"]).
+Proof.
+  intros e f n ivars i g s d setfs Hl. unfold inst_let. cbn [app].
+  unfold quote. cbn. rewrite Hl. reflexivity.
+Qed.
+
+Lemma slot_set_mid : forall done k o w rest, ~ In k (map fst done) ->
+  slot_set (done ++ (k, o) :: rest) k w = Some (done ++ (k, w) :: rest).
+Proof.
+  induction done as [|[k' v'] r IH]; intros k o w rest Hn; cbn [app slot_set].
+  - rewrite String.eqb_refl. reflexivity.
+  - destruct (k' =? k) eqn:E.
+    + apply String.eqb_eq in E. subst. exfalso. apply Hn. left. reflexivity.
+    + rewrite IH; [reflexivity|]. intro Hin. apply Hn. right. exact Hin.
+Qed.
+
+Lemma run_inst_all : forall e fl todo fws done olds,
+  Forall2 (fun kv fw => forall cur, eval (("inst", Inst fl cur) :: e) fw = Ok (snd kv)) todo fws ->
+  map fst olds = map fst todo -> NoDup (map fst done ++ map fst todo) ->
+  run_inst e fl (done ++ olds) (map (fun p => setf_slot (fst p) (snd p)) (combine (map fst todo) fws) ++ [Sym "inst"])
+  = Ok (Inst fl (done ++ todo)).
+Proof.
+  intros e fl todo. induction todo as [|[k w] todo IH]; intros fws done olds HF Hk Hnd.
+  - inversion HF; subst. destruct olds; [|discriminate]. cbn. reflexivity.
+  - inversion HF as [|? fw ? fws' Hfw HF']; subst. destruct olds as [|[k0 o] olds]; [discriminate|].
+    cbn [map fst] in Hk. injection Hk as Hk0 Hk. subst k0.
+    cbn [map fst combine app]. unfold setf_slot at 1. unfold quote. cbn [fst snd].
+    cbn [run_inst]. cbn [String.eqb Ascii.eqb Bool.eqb andb].
+    cbn [snd] in Hfw. rewrite Hfw. cbn [bind].
+    assert (Hn : ~ In k (map fst done)).
+    { cbn [map fst] in Hnd. intro Hin. apply NoDup_remove_2 in Hnd. apply Hnd. apply in_or_app. left. exact Hin. }
+    rewrite slot_set_mid by exact Hn.
+    fold (run_inst e fl).
+    replace (done ++ (k, w) :: olds) with ((done ++ [(k, w)]) ++ olds) by (rewrite <- app_assoc; reflexivity).
+    rewrite (IH fws' (done ++ [(k, w)]) olds HF' Hk).
+    + rewrite <- app_assoc. reflexivity.
+    + rewrite map_app. cbn [map fst]. rewrite <- app_assoc. exact Hnd.
+Qed.
+
+Lemma strings_eqb_eq : forall a b, strings_eqb a b = true -> a = b.
+Proof.
+  induction a as [|x a IH]; destruct b as [|y b]; cbn [strings_eqb]; intro H; try discriminate; [reflexivity|].
+  apply andb_true_iff in H. destruct H as [H1 H2]. apply String.eqb_eq in H1. subst. f_equal. apply IH. exact H2.
+Qed.
+Lemma keys_nodupb_nodup : forall l, keys_nodupb l = true -> NoDup l.
+Proof.
+  induction l as [|k r IH]; intro H; [constructor|]. cbn [keys_nodupb] in H. apply andb_true_iff in H. destruct H as [H1 H2].
+  constructor; [|apply IH; exact H2]. intro Hin. apply negb_true_iff in H1.
+  assert (existsb (String.eqb k) r = true) by (apply existsb_exists; exists k; split; [exact Hin|apply String.eqb_refl]). congruence.
+Qed.
+
 (* ---- the main theorem ---- *)
 Lemma exists_last' : forall (xs : list obj), xs <> [] -> exists xs' a, xs = xs' ++ [a].
 Proof. intros xs H. destruct (exists_last H) as (xs' & a & E). eauto. Qed.
+
+Lemma forallb_insts_app : forall e l1 l2, forallb (insts_in e) (l1 ++ l2) = true ->
+  forallb (insts_in e) l1 = true /\ forallb (insts_in e) l2 = true.
+Proof. intros e l1 l2 H. rewrite forallb_app in H. apply andb_true_iff in H. exact H. Qed.
 
 Lemma reloads_in : forall v, loadable_in v = true -> reloads v.
 Proof.
@@ -363,17 +557,19 @@ Proof.
   - exists T. split; [reflexivity|]. intros; reflexivity.
   - eexists. split; [reflexivity|]. intros; reflexivity.
   - (* Big *)
-    cbn [load_form]. destruct (is_int64 z); eexists; (split; [reflexivity|]); intros; reflexivity.
+    unfold elem_form. cbn [lform]. destruct (is_int64 z); eexists; (split; [reflexivity|]); intros; reflexivity.
   - eexists. split; [reflexivity|]. intros; reflexivity.
   - eexists. split; [reflexivity|]. intros; reflexivity.
-  - (* Sym *)
-    exists (Sym s). split; [reflexivity|]. intros e He. apply eval_sym; assumption.
+  - (* Sym: a keyword stands for itself, any other symbol is quoted *)
+    unfold elem_form. cbn [lform andb]. destruct (is_keyword s) eqn:K; cbn [negb]; eexists; (split; [reflexivity|]); intros e He _.
+    + cbn [eval]. rewrite K. reflexivity.
+    + reflexivity.
   - (* L *)
     cbn [loadable_in] in Hl. apply andb_true_iff in Hl. destruct Hl as [Hne Hall].
     destruct (reloads_all xs H Hall) as (fs & Efs & Evs).
     exists (L (Sym "list" :: fs)). split.
-    + cbn [load_form]. rewrite load_form_list, Efs. reflexivity.
-    + intros e He. cbn [eval]. cbn [String.eqb Ascii.eqb Bool.eqb]. rewrite eval_list, (Evs e He). cbn [bind].
+    + unfold elem_form. rewrite load_form_L, Efs. reflexivity.
+    + intros e He Hi. cbn [insts_in] in Hi. cbn [eval]. cbn [String.eqb Ascii.eqb Bool.eqb]. rewrite eval_list, (Evs e He Hi). cbn [bind].
       unfold apply_fn. cbn [String.eqb Ascii.eqb Bool.eqb]. destruct xs; [discriminate|reflexivity].
   - (* Dot *)
     cbn [loadable_in] in Hl. apply andb_true_iff in Hl. destruct Hl as [Hl Htl]. apply andb_true_iff in Hl. destruct Hl as [Hl Hltl].
@@ -382,11 +578,11 @@ Proof.
     destruct (reloads_all xs H Hall) as (fs & Efs & Evs).
     destruct (IHv Hltl) as (ft & Eft & Evt).
     destruct (exists_last' xs Hxs) as (xs' & a & Exs).
-    assert (Hlenfs : List.length fs = List.length xs) by (exact (map_res_length load_form xs fs Efs)).
+    assert (Hlenfs : List.length fs = List.length xs) by (exact (map_res_length elem_form xs fs Efs)).
     assert (Hfs : fs <> []) by (intro; subst fs; rewrite Exs in Hlenfs; rewrite app_length in Hlenfs; cbn in Hlenfs; lia).
     destruct (exists_last' fs Hfs) as (fs' & fa & Efs').
-    assert (Hev : forall e, env_ok e -> map_res (eval e) fs' = Ok xs' /\ eval e fa = Ok a).
-    { intros e He. specialize (Evs e He). subst fs xs.
+    assert (Hev : forall e, env_ok e -> forallb (insts_in e) xs = true -> map_res (eval e) fs' = Ok xs' /\ eval e fa = Ok a).
+    { intros e He Hi. specialize (Evs e He Hi). subst fs xs.
       assert (Hl1 : List.length fs' = List.length xs') by (rewrite !app_length in Hlenfs; cbn in Hlenfs; lia).
       clear -Evs Hl1. revert xs' Hl1 Evs. induction fs' as [|f1 fs' IH]; intros xs' Hl1 Evs.
       - destruct xs'; [|discriminate]. cbn [app map_res] in Evs. destruct (eval e fa); [|discriminate].
@@ -396,20 +592,23 @@ Proof.
         destruct (map_res (eval e) (fs' ++ [fa])) as [ys|] eqn:E; [|discriminate]. cbn [bind] in Evs.
         injection Evs as -> ->. injection Hl1 as Hl1. destruct (IH xs' Hl1 eq_refl) as [I1 I2].
         rewrite I1. split; [reflexivity|exact I2]. }
-    cbn [load_form]. rewrite load_form_list, Efs, Eft. cbn [bind]. rewrite Efs'. rewrite rev_app_distr. cbn [rev app].
+    unfold elem_form. rewrite load_form_Dot, Efs. cbn [bind]. unfold elem_form in Eft. fold (elem_form v). unfold elem_form. rewrite Eft. cbn [bind].
+    rewrite Efs'. rewrite rev_app_distr. cbn [rev app].
     destruct (rev fs') as [|rf rfs] eqn:Erev.
     + (* a single element before the tail *)
       assert (fs' = []) by (apply (f_equal (@rev obj)) in Erev; rewrite rev_involutive in Erev; exact Erev). subst fs'.
-      eexists. split; [reflexivity|]. intros e He. destruct (Hev e He) as [H1 H2].
+      eexists. split; [reflexivity|]. intros e He Hi. cbn [insts_in] in Hi. apply andb_true_iff in Hi. destruct Hi as [Hix Hit].
+      destruct (Hev e He Hix) as [H1 H2].
       cbn in H1. injection H1 as <-. cbn [app] in Exs. subst xs.
-      cbn [eval]. cbn [String.eqb Ascii.eqb Bool.eqb]. rewrite H2. cbn [bind]. rewrite (Evt e He). cbn [bind].
+      cbn [eval]. cbn [String.eqb Ascii.eqb Bool.eqb]. rewrite H2. cbn [bind]. rewrite (Evt e He Hit). cbn [bind].
       unfold apply_fn. cbn [String.eqb Ascii.eqb Bool.eqb]. unfold cons_val. destruct v; try reflexivity; discriminate.
-    + eexists. split; [reflexivity|]. intros e He. destruct (Hev e He) as [H1 H2].
+    + eexists. split; [reflexivity|]. intros e He Hi. cbn [insts_in] in Hi. apply andb_true_iff in Hi. destruct Hi as [Hix Hit].
+      destruct (Hev e He Hix) as [H1 H2].
       assert (Hrr : rev (rf :: rfs) = fs') by (rewrite <- Erev; apply rev_involutive).
       rewrite Hrr.
       cbn [eval]. cbn [String.eqb Ascii.eqb Bool.eqb]. rewrite eval_list, H1. cbn [bind].
       unfold apply_fn at 2. cbn [String.eqb Ascii.eqb Bool.eqb].
-      rewrite H2. cbn [bind]. rewrite (Evt e He). cbn [bind].
+      rewrite H2. cbn [bind]. rewrite (Evt e He Hit). cbn [bind].
       unfold apply_fn. cbn [String.eqb Ascii.eqb Bool.eqb].
       assert (Hxs' : xs' <> []).
       { intro; subst xs'. cbn in H1. destruct fs'; [|cbn in H1; destruct (eval e o); [|discriminate]; cbn in H1;
@@ -419,80 +618,117 @@ Proof.
       destruct xs' as [|x1 xs'']; [contradiction|]. cbn [mkL elems_of].
       subst xs. destruct v; try reflexivity; discriminate.
   - (* Vec *)
-    cbn [loadable_in] in Hl. apply andb_true_iff in Hl. destruct Hl as [Hl Hq]. apply andb_true_iff in Hl. destruct Hl as [Hl Het].
-    apply andb_true_iff in Hl. destruct Hl as [Hadj Hne].
-    destruct adj; [|discriminate]. destruct v; try discriminate.
-    assert (Hxs : xs <> []) by (destruct xs; [discriminate|discriminate]).
-    eexists. split; [reflexivity|]. intros e He. apply eval_vec_form. exact Hxs.
+    cbn [loadable_in] in Hl. apply andb_true_iff in Hl. destruct Hl as [Het Hq].
+    destruct v; try discriminate.
+    eexists. split; [reflexivity|]. intros e He _. apply eval_vec_form.
   - (* Arr *)
     cbn [loadable_in] in Hl. apply andb_true_iff in Hl. destruct Hl as [Hl Hq]. apply andb_true_iff in Hl. destruct Hl as [Hl Het].
-    apply andb_true_iff in Hl. destruct Hl as [Hl Hlen]. apply andb_true_iff in Hl. destruct Hl as [Hl Hpos].
-    apply andb_true_iff in Hl. destruct Hl as [Hadj Hrank].
-    destruct adj; [|discriminate]. destruct v; try discriminate.
+    apply andb_true_iff in Hl. destruct Hl as [Hrank Hlen].
+    destruct v; try discriminate.
     apply Nat.leb_le in Hrank. apply Nat.eqb_eq in Hlen.
-    eexists. split; [reflexivity|]. intros e He. apply eval_arr_form; assumption.
-  - (* Hash *)
+    eexists. split; [reflexivity|]. intros e He _. apply eval_arr_form; assumption.
+  - (* Hash: every key and every value as an element *)
     cbn [loadable_in] in Hl. apply andb_true_iff in Hl. destruct Hl as [Hok Hd].
-    eexists. split; [reflexivity|]. intros e He.
-    cbn [app]. rewrite eval_table_let.
-    rewrite (run_table_entries e kvs [] He Hok Hd); [reflexivity|]. intros; reflexivity.
+    assert (Hefs : exists efs, map_res entry_form kvs = Ok efs /\
+              forall e, env_ok e -> forallb (fun kv => insts_in e (snd kv)) kvs = true -> Forall2 (entry_evals e) kvs efs).
+    { clear Hd. induction kvs as [|[k w] r IHr].
+      - exists []. split; [reflexivity|]. intros; constructor.
+      - inversion H as [|? ? [_ Pw] Pr]; subst. cbn [snd] in Pw.
+        cbn [forallb fst snd] in Hok. apply andb_true_iff in Hok. destruct Hok as [Hkw Hr]. apply andb_true_iff in Hkw. destruct Hkw as [Hk Hw].
+        destruct (IHr Pr Hr) as (efs & Eefs & Hefs).
+        destruct (key_form_eval k Hk) as (kf & Ekf & Evk). destruct (Pw Hw) as (wf & Ewf & Evw).
+        exists (setf_gethash kf wf :: efs). split.
+        + cbn [map_res]. unfold entry_form at 1. cbn [fst snd]. rewrite Ekf, Ewf. cbn [bind]. rewrite Eefs. reflexivity.
+        + intros e He Hi. cbn [forallb snd] in Hi. apply andb_true_iff in Hi. destruct Hi as [Hiw Hir].
+          constructor; [|apply Hefs; assumption].
+          exists kf, wf. split; [reflexivity|]. cbn [fst snd]. split; intro tb; [apply Evk|].
+          apply Evw; [apply env_ok_table; exact He|apply insts_in_table; exact Hiw]. }
+    destruct Hefs as (efs & Eefs & Hefs).
+    exists (table_let efs). split.
+    + unfold elem_form. rewrite load_form_Hash, Eefs. reflexivity.
+    + intros e He Hi. cbn [insts_in] in Hi. rewrite eval_table_let.
+      rewrite (run_table_entries e kvs efs [] (Hefs e He Hi) Hd); [reflexivity|]. intros; reflexivity.
   - (* Lam *)
     cbn [loadable_in] in Hl. apply andb_true_iff in Hl. destruct Hl as [Hl _].
-    eexists. split; [reflexivity|]. intros e He. apply eval_lambda_form. exact Hl.
-  - discriminate.
+    eexists. split; [reflexivity|]. intros e He _. apply eval_lambda_form. exact Hl.
+  - (* Inst: the value of every instance variable as an element *)
+    cbn [loadable_in] in Hl. rename Hl into Hs.
+    assert (Hfws : exists fws, map_res slot_form slots = Ok (map (fun p => setf_slot (fst p) (snd p)) (combine (map fst slots) fws)) /\
+              forall e, env_ok e ->
+                (fix go (l : list (string * obj)) : bool := match l with [] => true | (_, w) :: r => insts_in e w && go r end) slots = true ->
+                Forall2 (fun kv fw => forall cur, eval (("inst", Inst f cur) :: e) fw = Ok (snd kv)) slots fws).
+    { induction slots as [|[k w] r IHr].
+      - exists []. split; [reflexivity|]. intros; constructor.
+      - inversion H as [|? ? Pw Pr]; subst. cbn [snd] in Pw.
+        apply andb_true_iff in Hs. destruct Hs as [Hw Hr].
+        destruct (IHr Pr Hr) as (fws & Efws & Hfws). destruct (Pw Hw) as (fw & Efw & Evw).
+        exists (fw :: fws). split.
+        + cbn [map_res]. unfold slot_form at 1. cbn [fst snd]. rewrite Efw. cbn [bind]. rewrite Efws. reflexivity.
+        + intros e He Hi. apply andb_true_iff in Hi. destruct Hi as [Hiw Hir].
+          constructor; [|apply Hfws; assumption]. intro cur. cbn [snd].
+          apply Evw; [apply env_ok_inst; exact He|apply insts_in_inst; exact Hiw]. }
+    destruct Hfws as (fws & Efws & Hfws).
+    eexists. split.
+    + unfold elem_form. rewrite load_form_Inst, Efws. reflexivity.
+    + intros e He Hi. cbn [insts_in] in Hi. apply andb_true_iff in Hi. destruct Hi as [Hi Hg]. apply andb_true_iff in Hi. destruct Hi as [Hi Hn].
+      apply andb_true_iff in Hi. destruct Hi as [_ Hlk].
+      destruct (lookup e f) as [fv|] eqn:El; [|discriminate]. destruct fv; try discriminate.
+      apply strings_eqb_eq in Hlk. apply keys_nodupb_nodup in Hn.
+      rewrite (eval_inst_let e f _ _ _ _ _ _ _ El).
+      pose proof (run_inst_all e f slots fws [] ivars (Hfws e He Hg) Hlk) as Hrun. cbn [app map] in Hrun. apply Hrun. exact Hn.
   - discriminate.
   - discriminate.
 Qed.
 
-(* Theorem 1: for EVERY loadable value (lists, dotted lists, vectors, arrays, hash tables, lambdas, nested without
-   bound) the load form evaluates to the value itself *)
-Theorem reload_loadable : forall v, loadable v = true -> reload v = Ok v.
+(* Theorem 1: for EVERY loadable value (lists, dotted lists, vectors, arrays, hash tables, lambdas, instances, nested
+   without bound) the load form evaluates to the value itself, in every environment that knows the flavors of the
+   instances inside the value *)
+Theorem load_form_reloads : forall v, loadable v = true -> forall e, env_ok e -> insts_in e v = true ->
+  bind (load_form v) (eval e) = Ok v.
 Proof.
-  intros v H. unfold reload.
-  assert (R : reloads v).
-  { destruct v; try (apply reloads_in; exact H).
-    cbn [loadable] in H. apply andb_true_iff in H. destruct H as [Hl _].
-    eexists. split; [reflexivity|]. intros e He. apply eval_lambda_form. exact Hl. }
-  destruct R as (f & Ef & Ev). rewrite Ef. cbn [bind]. apply Ev. apply global_env_ok.
+  intros v H e He Hi.
+  assert (R : exists f, load_form v = Ok f /\ eval e f = Ok v).
+  { destruct v; try (destruct (reloads_in _ H) as (f0 & Ef & Ev); exists f0; split; [exact Ef|exact (Ev e He Hi)]).
+    - (* a symbol on its own *)
+      eexists. split; [reflexivity|]. apply eval_sym; assumption.
+    - cbn [loadable] in H. apply andb_true_iff in H. destruct H as [Hl _].
+      eexists. split; [reflexivity|]. apply eval_lambda_form. exact Hl. }
+  destruct R as (f & Ef & Ev). rewrite Ef. cbn [bind]. exact Ev.
+Qed.
+
+(* ... in particular, without instances, in the global environment *)
+Theorem reload_loadable : forall v, loadable v = true -> no_inst v = true -> reload v = Ok v.
+Proof.
+  intros v H Hn. unfold reload. apply load_form_reloads; [exact H|apply global_env_ok|apply no_inst_insts_in; exact Hn].
 Qed.
 
 (* ---- non-vacuity: the guard admits nested values of every kind ---- *)
 Definition ex_rich : obj :=
-  L [Fix 1; Str "s"; Sym ":k"; Sym "fixnum"; Big 5; Big 9223372036854775808; Atom "ratio" "3/4"; Atom "character" "#\a";
+  L [Fix 1; Str "s"; Sym ":k"; Sym "fixnum"; Sym "abc"; L [Sym "quote"; Sym "let"]; Dot [Sym "a"] (Sym "b"); Big 5;
+     Big 9223372036854775808; Atom "ratio" "3/4"; Atom "character" "#\a";
      Dot [Fix 2; L [Fix 3]] (Fix 4);
-     Vec [Sym "a"; L [Fix 1; Vec [Fix 2] T true]; Dot [Fix 1] (Fix 2)] T true;
-     Arr [2; 2] [Fix 1; Fix 2; Sym "b"; Nil] T true;
-     Hash [(Sym "k", Fix 12); (Str "s", Str "v"); (Fix 3, Vec [Fix 1] T true)];
+     Vec [Sym "a"; L [Fix 1; Vec [Fix 2] T true None]; Dot [Fix 1] (Fix 2)] T true None;
+     Vec [Fix 1; Fix 2] T false None; Vec [] T true None; Vec [Fix 1; Fix 2; Fix 3] T true (Some 1);
+     Arr [2; 2] [Fix 1; Fix 2; Sym "b"; Nil] T true; Arr [2; 0] [] T false; Arr [0; 2] [] T true;
+     Hash [(Sym "k", Fix 12); (Str "s", Str "v"); (Fix 3, Vec [Fix 1] T true None); (Atom "character" "#\c", L [Fix 1; Sym "x"]);
+           (T, Hash [(Nil, Sym "sym")]); (Sym ":kw", Dot [Fix 1] (Fix 2))];
      Lam [Sym "x"; L [Sym "y"; Fix 2]] "" [L [Sym "+"; Sym "x"; Sym "y"]]].
-Lemma ex_rich_loadable : loadable ex_rich = true /\ reload ex_rich = Ok ex_rich.
-Proof. split; vm_compute; reflexivity. Qed.
+Lemma ex_rich_loadable : loadable ex_rich = true /\ no_inst ex_rich = true /\ reload ex_rich = Ok ex_rich.
+Proof. repeat split; vm_compute; reflexivity. Qed.
 Lemma ex_lambda_doc : loadable (Lam [Sym "x"] "doubles x" [L [Sym "*"; Sym "x"; Fix 2]]) = true.
 Proof. vm_compute. reflexivity. Qed.
 
-(* ---- outside the guard the faithful model does NOT meet the specification: the known findings ---- *)
-Lemma symbol_unquoted_refuted :
-  loadable (L [Sym "a"; Sym "b"]) = false /\ load_form (L [Sym "a"; Sym "b"]) = Ok (L [Sym "list"; Sym "a"; Sym "b"])
-  /\ reload (L [Sym "a"; Sym "b"]) = Err (EUnbound "a").
+(* an instance holding a list, a symbol, a hash table and another instance; a list holding an instance *)
+Definition ex_flavor : obj := Flv "blk" [("sa", Nil); ("sb", Fix 2)] true true true "".
+Definition ex_env : env := ("blk", ex_flavor) :: global_env.
+Definition ex_inst_value : obj :=
+  L [Fix 1; Inst "blk" [("sa", L [Fix 1; Sym "two"; L [Fix 3]]);
+                        ("sb", Inst "blk" [("sa", Hash [(Sym "k", Inst "blk" [("sa", Sym "abc"); ("sb", Fix 2)])]); ("sb", Fix 2)])]].
+Lemma ex_inst_value_ok : loadable ex_inst_value = true /\ insts_in ex_env ex_inst_value = true
+  /\ bind (load_form ex_inst_value) (eval ex_env) = Ok ex_inst_value.
 Proof. repeat split; vm_compute; reflexivity. Qed.
 
-Lemma adjustable_lost_refuted :
-  loadable (Vec [Fix 1; Fix 2] T false) = false /\ reload (Vec [Fix 1; Fix 2] T false) = Ok (Vec [Fix 1; Fix 2] T true).
-Proof. repeat split; vm_compute; reflexivity. Qed.
-
-Lemma empty_vector_refuted : loadable (Vec [] T true) = false /\ reload (Vec [] T true) = Err EType.
-Proof. repeat split; vm_compute; reflexivity. Qed.
-
-Lemma zero_dimension_refuted :
-  reload (Arr [2; 0] [] T true) = Err EType /\ reload (Arr [] [Fix 7] T true) = Err EType
-  /\ loadable (Arr [2; 0] [] T true) = false /\ loadable (Arr [] [Fix 7] T true) = false.
-Proof. repeat split; vm_compute; reflexivity. Qed.
-
-Lemma hash_keys_dropped_refuted :
-  loadable (Hash [(Atom "character" "#\c", Fix 1)]) = false /\ reload (Hash [(Atom "character" "#\c", Fix 1)]) = Ok (Hash [])
-  /\ reload (Hash [(L [Fix 1; Fix 2], Fix 1)]) = Ok (Hash []).
-Proof. repeat split; vm_compute; reflexivity. Qed.
-
-Lemma hash_values_unevaluated_refuted :
-  loadable (Hash [(Fix 1, L [Fix 1; Fix 2])]) = false /\ reload (Hash [(Fix 1, L [Fix 1; Fix 2])]) = Err ENotFunction
-  /\ reload (Hash [(Fix 1, Sym "abc")]) = Err (EUnbound "abc").
-Proof. repeat split; vm_compute; reflexivity. Qed.
+(* ---- outside the guard: a restriction that is still a defect ---- *)
+(* a rank-0 array (only the Go API can build one): AsList gives nil, make-array rejects nil as dimensions *)
+Lemma rank_zero_refuted : reload (Arr [] [Fix 7] T true) = Err EType /\ loadable (Arr [] [Fix 7] T true) = false.
+Proof. split; vm_compute; reflexivity. Qed.
